@@ -3,7 +3,7 @@
 //! `dispatch` returns `None` for a configuration the harness was not compiled with.
 
 use crate::driver::run_history;
-use crate::elem::{Pair, Var};
+use crate::elem::{Nl, Pair, Var};
 use alloy_primitives::{U128, U256};
 use milhouse::update_map::MaxMap;
 use std::collections::BTreeMap;
@@ -96,6 +96,7 @@ kind_fn!(run_h256, Hash256;
     9223372036854775808 => U9223372036854775808);
 kind_fn!(run_pair, Pair;);
 kind_fn!(run_var, Var;);
+kind_fn!(run_nl, Nl;);
 
 /// Run `ops` under configuration `(kind, n, map)`. Prints the `H` line itself (via `hdr`) once
 /// the configuration is known to be supported; returns `None` (nothing printed) otherwise.
@@ -117,6 +118,7 @@ pub fn dispatch(
         "h256" => run_h256(n, map, ops, out, hdr),
         "pair" => run_pair(n, map, ops, out, hdr),
         "var" => run_var(n, map, ops, out, hdr),
+        "nl" => run_nl(n, map, ops, out, hdr),
         _ => None,
     }
 }
